@@ -29,3 +29,14 @@ package dpop
 //@   ensures [success-only-via-verified-parse] isNilIface(result.1) ==> result.0 != nil && did(call jwt.ParseString #1) && isNilIface(ret(call jwt.ParseString #1).1)
 //@   ensures [claims-present] isNilIface(result.1) ==> !result.0.Token.IssuedAt().IsZero() && result.0.Token.JwtID() != "" && len(result.0.Token.JwtID()) <= maxJtiLength
 //@   ensures [fields-from-verified-token] isNilIface(result.1) ==> result.0.raw == s && result.0.Token == ret(call jwt.ParseString #1).0
+
+// ---- C19: claims of a parsed proof are attacker-controlled JSON values ----
+//@ func (DPoP).HTU
+//@   prop C19
+//@   safety
+//@ func (DPoP).HTM
+//@   prop C19
+//@   safety
+//@ func strip
+//@   prop C19
+//@   safety
